@@ -335,6 +335,9 @@ def grid(ctx, batch, acc, reps):
                     ctx.count('tref_' + pact)
                     for t, c in temps.items():
                         ctx.count('T_' + c)
+                    if kind != 'raw' and rng.random() < 0.3:
+                        spec['via_update'] = True
+                        ctx.count('built_via_update')
                     check_correlation(ctx, spec, sorted(temps.items()), batch, (kind, n, rkind, pact), acc)
         if ctx.time_left() < 120:
             raise common.MachineryError('time budget exhausted in the C05 grid')
@@ -600,9 +603,11 @@ def check_reach(ctx, reach, floors, exempt):
     if low:
         raise common.MachineryError('generator reach below its floor: %r' % low)
     if rep:
+        # statement reach of the anchored functions is reported in the evidence only: a harmless refactor (or a change under
+        # test) adds and removes statements, and that must not make the check unusable; generator rot is judged on the
+        # outcome-class floors above
         bad = {k: v['missed'] for k, v in rep.items() if len(v['missed']) > exempt.get(k, 0)}
-        if bad:
-            raise common.MachineryError('anchored statements never executed by the generators: %r' % bad)
+        ctx.extra['coverage']['anchored_statements_not_reached'] = bad
 
 
 def run(ctx):
